@@ -7,7 +7,13 @@
  *           are kept by the harness, because they are arguments of the query, not reader state;
  *           the xattr reader's documented position indicator (fine-grained API: ops XG XGR XS XRK
  *           XRV XRP XL XC XA) is re-established on the new reader by replaying the cursor-defining
- *           calls since the last successful seek_kv -- never the lookups in between
+ *           calls since the last successful seek_kv -- never the lookups in between;
+ *           the LOW-LEVEL readdir API (ops RI RR: sqfs_readdir_state_init + sqfs_meta_reader_readdir on
+ *           a caller-owned sqfs_readdir_state_t and a caller-owned meta reader): long = the same cursor
+ *           object is re-initialised for the next directory without being cleared (before its first use
+ *           it holds 0xA5 bytes: an initialiser is handed uninitialised memory), one meta reader lives
+ *           for the whole op list; fresh = the object is zeroed before every init and every RR gets a
+ *           new meta reader.  sqfs_dir_reader_state_t objects (op DO) are treated the same way.
  *
  * One canonical result line per op.  See props/C10/check.py for the op language.
  */
@@ -59,6 +65,9 @@ static sqfs_u32 alt_frag_count;
 
 static struct { int set; sqfs_u64 start, limit; sqfs_meta_reader_t *m; } mslot[NSLOT];
 static struct { int open; sqfs_dir_reader_state_t st; } dslot[NSLOT];
+/* low-level readdir API: caller-owned cursor objects + (long mode) one caller-owned meta reader on the directory table */
+static struct { int open; sqfs_readdir_state_t st; } rslot[NSLOT];
+static sqfs_meta_reader_t *lowm;
 typedef struct { int open; int is_raw; char raw[2048]; sqfs_u64 ref; sqfs_istream_t *s; size_t nchunks; sqfs_u32 chunks[256]; } tslot_t;
 static tslot_t tslot[NSLOT];
 
@@ -277,10 +286,76 @@ static void op_dir_open(rctx_t *c, int s, sqfs_u64 ref)
 	dslot[s].open = 0;
 	printf(" i=%d", ret);
 	if (ret) return;
+	/* open_dir initialises the state object: fresh = a zeroed object, long = whatever the object holds */
+	if (fresh_mode) memset(&dslot[s].st, 0, sizeof(dslot[s].st));
 	ret = sqfs_dir_reader_open_dir(c->dr, n, &dslot[s].st, 0);
 	printf(" o=%d", ret);
 	if (ret == 0) dslot[s].open = 1;
 	sqfs_free(n);
+}
+
+/* ---- the low-level readdir API: sqfs_readdir_state_init + sqfs_meta_reader_readdir ---- */
+
+/* the meta reader a caller of the low-level API creates for the directory table (bounds as dir_reader.c) */
+static sqfs_meta_reader_t *low_meta_create(rctx_t *c)
+{
+	sqfs_u64 start = c->super.directory_table_start, limit = c->super.id_table_start;
+	if (c->super.fragment_table_start < limit) limit = c->super.fragment_table_start;
+	if (c->super.export_table_start < limit) limit = c->super.export_table_start;
+	return sqfs_meta_reader_create(c->file, c->cmp, start, limit);
+}
+
+/* RI slot ref : initialise the caller-owned cursor object of the slot for the directory inode at ref */
+static void op_low_init(rctx_t *c, int s, sqfs_u64 ref)
+{
+	sqfs_inode_generic_t *n = NULL;
+	int ret = sqfs_dir_reader_get_inode(c->dr, ref, &n);
+	rslot[s].open = 0;
+	printf(" i=%d", ret);
+	if (ret) return;
+	if (fresh_mode) memset(&rslot[s].st, 0, sizeof(rslot[s].st));
+	ret = sqfs_readdir_state_init(&rslot[s].st, &c->super, n);
+	printf(" o=%d", ret);
+	if (ret == 0) rslot[s].open = 1;
+	sqfs_free(n);
+}
+
+/* RR slot k : up to k calls of sqfs_meta_reader_readdir continuing from the slot's cursor */
+static void op_low_read(rctx_t *c, int s, long count)
+{
+	sqfs_meta_reader_t *m;
+	sqfs_u32 h = FNV0;
+	long got = 0;
+	int ret = 0;
+
+	if (fresh_mode) {
+		m = low_meta_create(c);
+	} else {
+		if (!lowm) lowm = low_meta_create(c);
+		m = lowm;
+	}
+	if (!m) { printf(" no-meta-reader"); return; }
+	while (got < count) {
+		sqfs_dir_node_t *e = NULL;
+		sqfs_u32 inum = 0; sqfs_u64 iref = 0;
+		ret = sqfs_meta_reader_readdir(m, &rslot[s].st, &e, &inum, &iref);
+		if (ret != 0) break;
+		h = fnv(h, &e->offset, 2); h = fnv(h, &e->inode_diff, 2);
+		h = fnv(h, &e->type, 2); h = fnv(h, &e->size, 2);
+		h = fnv(h, e->name, (size_t)e->size + 1);
+		h = fnv(h, &iref, 8); h = fnv(h, &inum, 4);
+		if (got < 2) {
+			size_t k, kn = (size_t)e->size + 1 > 12 ? 12 : (size_t)e->size + 1;
+			printf(" e=");
+			for (k = 0; k < kn; ++k) printf("%02x", e->name[k]);
+			printf(",%u", inum);
+		}
+		sqfs_free(e);
+		++got;
+		if (got > 200000) { ret = -999; break; }
+	}
+	printf(" n=%ld last=%d h=%08x", got, ret, h);
+	if (fresh_mode) sqfs_drop(m);
 }
 
 static void op_dir_list(rctx_t *c, sqfs_u64 ref)
@@ -803,8 +878,13 @@ int main(int argc, char **argv)
 	fresh_mode = strcmp(argv[2], "fresh") == 0;
 	bigbuf = malloc(DATA_CAP + 16);
 	memset(&longctx, 0, sizeof(longctx));
-	if (!fresh_mode)
+	if (!fresh_mode) {
 		rctx_open(&longctx);
+		/* caller-owned cursor objects start out as uninitialised memory (C10_LOW_POISON=0: zeroed, to see what the
+		   re-use after an abandoned scan finds on its own) */
+		if (!getenv("C10_LOW_POISON") || strcmp(getenv("C10_LOW_POISON"), "0") != 0)
+		{ int k; for (k = 0; k < NSLOT; ++k) { memset(&rslot[k].st, 0xA5, sizeof(rslot[k].st)); memset(&dslot[k].st, 0xA5, sizeof(dslot[k].st)); } }
+	}
 
 	while (fgets(line, sizeof(line), stdin)) {
 		char op[16] = "", rest[1 << 12] = "";
@@ -876,6 +956,11 @@ int main(int argc, char **argv)
 			if (!dslot[s].open) printf(" -"); else read_entries(c, &dslot[s].st, (long)b);
 		} else if (!strcmp(op, "DL")) {
 			op_dir_list(c, a);
+		} else if (!strcmp(op, "RI")) {
+			op_low_init(c, a % NSLOT, b);
+		} else if (!strcmp(op, "RR")) {
+			int s = a % NSLOT;
+			if (!rslot[s].open) printf(" -"); else op_low_read(c, s, (long)(b > 200001 ? 200001 : b));
 		} else if (!strcmp(op, "P")) {
 			char *p = strchr(line, ' ');
 			op_path(c, p ? p + 1 : "");
